@@ -105,11 +105,12 @@ struct GroupAcc
     double maxmag[kNumGroups];
     double maxexcess[kNumGroups];
     double maxraw[kNumGroups];
+    double noiseMax[kNumGroups];
     bool seen[kNumGroups];
     GroupAcc()
     {
         for (int g = 0; g < kNumGroups; ++g)
-            maxmag[g] = maxexcess[g] = maxraw[g] = 0, seen[g] = false;
+            maxmag[g] = maxexcess[g] = maxraw[g] = noiseMax[g] = 0, seen[g] = false;
     }
     void add(int g, double analytic, double fd, double noise)
     {
@@ -121,6 +122,7 @@ struct GroupAcc
         if (std::isnan(d))
             d = INFINITY;
         maxraw[g] = std::max(maxraw[g], d);
+        noiseMax[g] = std::max(noiseMax[g], noise);
         maxexcess[g] = std::max(maxexcess[g], std::max(0.0, d - noise));
     }
     double value(int g) const
@@ -191,6 +193,11 @@ inline void fdCompare(Ctx &c, const std::string &mon, const Problem &p, const Gr
             fprintf(stderr, "  %s[%d,%d] analytic=%.12g fd=%.12g noise=%.3g scale=%.3g\n", kGroupNames[x.group], x.i, x.j, gradAt(an, x), fd, noise, sc);
         c.event("fd_components");
     }
+    // self-test of the monitor (not of the library): would an error of 1e-4 of the group's magnitude in one component
+    // have been flagged?  (excess needed: 1e-6 x magnitude; the noise band decides)
+    for (int g = 0; g < kNumGroups; ++g)
+        if (acc.seen[g] && acc.maxmag[g] > 0)
+            c.event(acc.noiseMax[g] < 0.99e-4 * acc.maxmag[g] ? "sensitivity_probe_1e-4.would_detect" : "sensitivity_probe_1e-4.masked_by_noise_band");
     for (int g = 0; g < kNumGroups; ++g)
         if (acc.seen[g])
             c.check(mon + "." + kGroupNames[g], acc.value(g), 1e-6, JObj().i("order", p.order).i("dim", p.dim).i("segments", p.N).num("ratio", durRatio(p.T)).str("equation", "gradient").str("group", kGroupNames[g]).done(), detail);
@@ -344,7 +351,7 @@ inline void runC05(Ctx &c)
                 w = std::max(w, (gc.times - (a * g1.times + b * g2.times)).cwiseAbs().maxCoeff());
                 w = std::max(w, (gc.start - (a * g1.start + b * g2.start)).cwiseAbs().maxCoeff());
                 w = std::max(w, (gc.end - (a * g1.end + b * g2.end)).cwiseAbs().maxCoeff());
-                c.check("C05.linearity", sc > 0 ? w / sc : (w == 0 ? 0 : INFINITY), 1e-9, gkey(p, "linearity"));
+                c.check("C05.linearity", sc > 0 ? w / sc : (w == 0 ? 0 : INFINITY), 1e-8, gkey(p, "linearity"));
                 // zero upstream gives exactly zero
                 Grads gz = s->propagate(MatrixXd::Zero(u.gC.rows(), u.gC.cols()), VectorXd::Zero(p.N), refOv);
                 c.require("C05.zero_upstream_zero_result", gradsMaxAbs(gz) == 0, gkey(p, "linearity"));
@@ -642,11 +649,11 @@ inline void runC13(Ctx &c)
             double gsc = std::max(gradsMaxAbs(g), gradsMaxAbs(gs));
             c.check("C13.propagated_points_vs_1d", relMat(g.inner, gs.inner, gsc), 1e-10, gkey(p, "propagated_inner"));
             c.check("C13.propagated_boundary_vs_1d", std::max(relMat(g.start, gs.start, gsc), relMat(g.end, gs.end, gsc)), 1e-10, gkey(p, "propagated_boundary"));
-            c.check("C13.propagated_times_is_sum", relMat(g.times, gs.times, gsTimesAbs.maxCoeff()), 1e-10, gkey(p, "propagated_times"));
+            c.check("C13.propagated_times_is_sum", relMat(g.times, gs.times, gsTimesAbs.maxCoeff()), 1e-8, gkey(p, "propagated_times"));
             double esc = std::max(gradsMaxAbs(eg), gradsMaxAbs(egs));
             c.check("C13.energy_grad_points_vs_1d", std::max(relMat(eg.inner, egs.inner, esc), std::max(relMat(eg.start, egs.start, esc), relMat(eg.end, egs.end, esc))), 1e-10, gkey(p, "energy_grad"));
             c.check("C13.energy_grad_times_is_sum", relMat(eg.times, egs.times, egsTimesAbs.size() ? egsTimesAbs.maxCoeff() : 0), 1e-10, gkey(p, "energy_grad_times"));
-            c.check("C13.energy_is_sum", scaledDiff(E, (double)Esum, (double)Eabs), 1e-10, gkey(p, "energy"));
+            c.check("C13.energy_is_sum", scaledDiff(E, (double)Esum, (double)Eabs), 1e-9, gkey(p, "energy"));
             // one-hot: silent coordinates stay exactly zero
             if (onehot)
             {
@@ -696,7 +703,7 @@ inline void runC13(Ctx &c)
                 w = std::max(w, relMat(gq.end, gp.end, gsc));
                 w = std::max(w, relMat(gq.times, g.times, gsTimesAbs.maxCoeff()));
                 w = std::max(w, scaledDiff(sq->energy(), E, (double)Eabs));
-                c.check("C13.permutation_equivariance", w, 1e-10, gkey(p, "permutation"));
+                c.check("C13.permutation_equivariance", w, 1e-8, gkey(p, "permutation"));
             }
         }
     }
